@@ -1371,7 +1371,24 @@ func (r *Reader) processParagraph(p paragraphXML) parsedParagraph {
 
 // extractRunText extracts text from a run element.
 func (r *Reader) extractRunText(run runXML) string {
+	return runText(run)
+}
+
+// runText returns the text of a run: text, symbols, tabs and breaks.
+func runText(run runXML) string {
 	var parts []string
+
+	// Runs decoded from XML carry their content in document order.
+	if len(run.Content) > 0 {
+		for _, item := range run.Content {
+			if item.Sym != "" {
+				parts = append(parts, parseSymbolChar(item.Sym))
+			} else {
+				parts = append(parts, item.Text)
+			}
+		}
+		return strings.Join(parts, "")
+	}
 
 	for _, t := range run.Text {
 		parts = append(parts, t.Value)
